@@ -113,6 +113,14 @@ def mon_c09(rec):
             continue
         if c["m"] == "Zero":
             continue
+        if c["m"] in ("Greet", "Tags", "Mirror"):
+            # handlers that return a value and no error: the value arrives
+            got = invs.get(c["tag"], [])
+            if len(got) != 1 or got[0]["data"] != c["oracle"]:
+                out.append("%s tag %d: handler received %s, expected %s" % (c["m"], c["tag"], [g["data"] for g in got], c["oracle"]))
+            if c["ret"] != c.get("extra"):
+                out.append("%s tag %d: the handler returned the value %s (and no error), the caller got %s" % (c["m"], c["tag"], (c.get("extra") or "")[:120], c["ret"][:120]))
+            continue
         if c["m"] == "EchoNamed":
             got = invs.get(c["tag"], [])
             if len(got) != 1 or got[0]["data"] != c["oracle"]:
@@ -198,6 +206,19 @@ def mon_c11(rec):
         elif c["m"] == "IterCount":
             if c["err"] != "" or c["ret"] != "0:0/;1:10/;2:8589934594/":
                 out.append("closure with named integer parameters: the callee's invocations returned %r (error %r), expected '0:0/;1:10/;2:8589934594/'" % (c["ret"], c["err"]))
+        elif c["m"] == "Call0":
+            if c["err"] != "" or c["ret"] != "4850":
+                out.append("a closure that takes only a context: the callee's invocation returned (%s, %r), expected (4850, '')" % (c["ret"], c["err"]))
+        elif c["m"] == "SameLiteral":
+            want = str(1000 * (c["tag"] - 4830 + 1) + c["tag"])
+            if c["err"] != "" or c["ret"] != want:
+                out.append("two calls in flight passing closures made by the same function literal: call tag %d got (%s, %r) from its callee, expected %s (the closure of its own call)" % (c["tag"], c["ret"], c["err"], want))
+        elif c["m"] == "KeepAndCallCancelled":
+            if c["err"] != "context canceled":
+                out.append("a call cancelled while the callee was inside an invocation of its closure returned (%s, %r) instead of promptly returning the context's error" % (c["ret"], c["err"]))
+        elif c["m"] == "LateInvokeAfterInFlight":
+            if c["err"] != "closure does not exist" or c.get("extra") != "1":
+                out.append("late invocation of a closure after its call returned (an earlier invocation was still running when the call returned): error %r, function ran %s time(s) in total, expected 'closure does not exist' and 1" % (c["err"], c.get("extra")))
         elif c["m"] == "BadClosureArg":
             if c["err"] == "":
                 out.append("a call passing a function argument that cannot be a closure (no error result) returned a nil error")
